@@ -67,3 +67,60 @@ func ruleI5(p *Prog, r *Report) {
 	}
 	r.Floor(R, "iterator types that hand out mutable elements", 2, n)
 }
+
+// I6 every iterator constructor hands out a cursor of its own.
+//
+// Two enumerations of one container that are alive at the same time (nested loops, a comparison in lockstep)
+// must not share state: an iterator whose state lives inside the container handle is rewound by the next
+// constructor call and advanced by every other user. Obligation per function that returns an iterator
+// (a result type whose name ends in Iterator): the returned object is allocated in that function, comes from
+// another constructor, or is a package-level empty iterator - not an address inside one of its parameters.
+func ruleI6(p *Prog, r *Report) {
+	const R = "I6"
+	n := 0
+	for _, f := range p.TopFuncs() {
+		if p.IsTestFile(f.Pos()) || f.Signature.Results().Len() == 0 || len(f.Blocks) == 0 {
+			continue
+		}
+		if !strings.HasSuffix(typeName(f.Signature.Results().At(0).Type()), "Iterator") {
+			continue
+		}
+		n++
+		bad := ""
+		for _, ret := range returnsOf(f) {
+			if cl, _ := classifyReturn(ret); cl == retError {
+				continue
+			}
+			v := canon(stripIface(ret.Results[0]))
+			if isNilConst(v) {
+				continue
+			}
+			var inside func(x ssa.Value, d int) bool
+			inside = func(x ssa.Value, d int) bool {
+				if d > 4 {
+					return false
+				}
+				switch y := x.(type) {
+				case *ssa.FieldAddr:
+					if _, isPrm := canon(y.X).(*ssa.Parameter); isPrm {
+						return true
+					}
+					return inside(y.X, d+1)
+				case *ssa.Phi:
+					for _, e := range y.Edges {
+						if inside(canon(stripIface(e)), d+1) {
+							return true
+						}
+					}
+				}
+				return false
+			}
+			if inside(v, 0) {
+				bad = p.InstrPos(ret)
+			}
+		}
+		r.Decide(bad == "", R, "fresh-cursor:"+p.Name(f), p.Pos(f.Pos()), "the iterator handed out is not part of the container handle",
+			"the iterator returned at "+bad+" is an address inside the container handle: every enumeration of that container shares one cursor, so a second enumeration started while the first is alive rewinds it and each step advances both (elements are skipped, the outer loop ends early without an error)")
+	}
+	r.Floor(R, "iterator constructors", 8, n)
+}
